@@ -89,7 +89,7 @@ type vScenario struct {
 	toks   map[string]string // label -> session text
 }
 
-func (s *vScenario) do(q vReq) {
+func (s *vScenario) do(q vReq) (ok2xx, changed, listShown bool) {
 	c := s.c
 	body := q.body()
 	bodyOk, d := decodeAs(q.ep, body)
@@ -115,10 +115,11 @@ func (s *vScenario) do(q vReq) {
 	}()
 	after := dirDigest(s.a.dirPath)
 	post := s.a.users()
-	ok2xx := panicked == "" && rec.Code >= 200 && rec.Code < 300
+	changed = before != after
+	ok2xx = panicked == "" && rec.Code >= 200 && rec.Code < 300
 	var resp map[string]interface{}
 	json.Unmarshal(rec.Body.Bytes(), &resp)
-	listShown := false
+	listShown = false
 	if l, present := resp["list"]; present && l != nil {
 		if m, isMap := l.(map[string]interface{}); isMap && len(m) > 0 {
 			listShown = true
@@ -157,6 +158,7 @@ func (s *vScenario) do(q vReq) {
 		adm, _ := resp["admin"].(bool)
 		c.emit("law.C06.token_only_after_password_auth "+id, vtf(q.ep == "authenticate" && okAuth && adm == isAdm))
 	}
+	return
 }
 
 func suiteV06(c *vctx) {
@@ -173,7 +175,8 @@ func suiteV06(c *vctx) {
 		}
 		s := &vScenario{c: c, a: a, toks: map[string]string{}}
 		s.other, _ = NewWebSessionFactory(600 * time.Second)
-		pw := map[string]string{"root": "Root-Passw0rd", "alice": "Alice-Passw0rd", "bob": "Bob-Passw0rd", "carol": "Carol-Passw0rd"}
+		pw := map[string]string{"root": "Root-Passw0rd", "alice": "Alice-Passw0rd", "bob": "Bob-Passw0rd", "carol": "Carol-Passw0rd",
+			"Alice": "UpperAlice-Passw0rd", "ALICE": "AllCaps-Passw0rd", "Root": "UpperRoot-Passw0rd"}
 		for u, p := range pw {
 			a.pws[p] = true
 			_ = u
@@ -182,6 +185,10 @@ func suiteV06(c *vctx) {
 		a.iface.Add("alice", pw["alice"], false)
 		a.iface.Add("bob", pw["bob"], false)
 		a.iface.Add("carol", pw["carol"], true)
+		// names that differ from others only in letter case are distinct accounts
+		a.iface.Add("Alice", pw["Alice"], false)
+		a.iface.Add("ALICE", pw["ALICE"], true)
+		a.iface.Add("Root", pw["Root"], false)
 		// logins through the API itself
 		for _, u := range []string{"root", "alice", "carol"} {
 			s.do(vReq{ep: "authenticate", username: u, password: pw[u]})
@@ -215,7 +222,7 @@ func suiteV06(c *vctx) {
 			"forged-flag":    forged(fmt.Sprintf("alice:TRUE:%d", now)),
 		}
 		credNames := []string{"none", "garbage", "not-base64", "no-colon", "short-nonce", "expired", "future", "bit-flipped", "other-instance", "user", "admin", "admin-at-login", "forged-flag"}
-		targets := []string{"alice", "bob", "root", "nobody", "../x", "", "new1", "alice\n"}
+		targets := []string{"alice", "bob", "root", "nobody", "../x", "", "new1", "alice\n", "Alice", "ALICE", "Root", "aLICE"}
 		idx := 0
 		for _, ep := range vEndpoints {
 			for _, cn := range credNames {
@@ -250,12 +257,32 @@ func suiteV06(c *vctx) {
 							q.newpw = ""
 						}
 					}
-					s.do(q)
+					oldRight := q.oldpw != "" && func() bool { ok, _, _, _, _ := a.ref.Authenticate(tg, q.oldpw); return ok }()
+					_, changed, listed := s.do(q)
+					// the property, stated on the credential kind the harness knows it presented
+					adminCred := cn == "admin" || cn == "admin-at-login"
+					id := fmt.Sprintf("ep=%s cred=%s target=%s", ep, cn, vxs(tg))
+					switch ep {
+					case "add", "remove", "set-admin":
+						c.emit("law.C06.management_effect_requires_admin_session "+id, vtf(!changed || adminCred))
+					case "list", "list-full":
+						c.emit("law.C06.list_disclosed_only_to_admin_session "+id, vtf(!listed || adminCred))
+					case "update":
+						sessOnly := q.session != "" && q.oldpw == ""
+						pwOnly := q.session == "" && q.oldpw != ""
+						allowed := sessOnly && (adminCred || (cn == "user" && tg == "alice")) || pwOnly && oldRight
+						c.emit("law.C06.update_effect_requires_admin_own_session_or_current_password "+id, vtf(!changed || allowed))
+					}
 					// never lose the last administrator: restore what the matrix needs
 					if tg == "root" && (ep == "remove" || ep == "set-admin" || ep == "update") {
 						a.iface.Add("root", pw["root"], true)
 						a.iface.SetAdmin("root", true)
 						a.iface.Update("root", pw["root"])
+					}
+					if (tg == "alice" || tg == "bob" || tg == "Alice" || tg == "ALICE" || tg == "Root") && (ep == "remove" || ep == "update" || ep == "set-admin") {
+						a.iface.Add(tg, pw[tg], tg == "ALICE")
+						a.iface.Update(tg, pw[tg])
+						a.iface.SetAdmin(tg, tg == "ALICE")
 					}
 					if (tg == "alice" || tg == "bob") && (ep == "remove" || ep == "update") {
 						a.iface.Add(tg, pw[tg], false)
@@ -291,7 +318,7 @@ func suiteV06(c *vctx) {
 			if r.Intn(3) == 0 {
 				cn = "admin"
 			}
-			tg := []string{"alice", "bob", "root", "nobody", "new1", "new2", "carol"}[r.Intn(7)]
+			tg := []string{"alice", "bob", "root", "nobody", "new1", "new2", "carol", "Alice", "ALICE"}[r.Intn(9)]
 			q := vReq{ep: ep, session: creds[cn], username: tg, password: fmt.Sprintf("Seq-Passw0rd-%d", k), newpw: fmt.Sprintf("SeqNew-Passw0rd-%d", k), admin: r.Bool()}
 			if ep == "authenticate" {
 				q.password = pw[tg]
